@@ -1537,6 +1537,12 @@ func (c *Ctx) applySpecFun(pi *PkgInfo, sf *SpecFun, args []*Val) *Val {
 				for i, t := range allPh {
 					key = strings.ReplaceAll(key, t.S, fmt.Sprintf("!P%d", i))
 				}
+				// the allocation frontier is not part of the state an opaque function names: `allocated(y)` for a y
+				// reachable from the arguments holds in every reachable state (stored references are always below
+				// the frontier), so two states that differ only in the frontier give the same function
+				if c.St.Top.S != "" {
+					key = replaceSym(key, c.St.Top.S, "!TOP")
+				}
 				key = "opqf:" + sf.Name + ":" + normPh(key)
 				if c.lambdaCache == nil {
 					c.lambdaCache = map[string]Term{}
@@ -1647,3 +1653,30 @@ func (c *Ctx) isOpaqueHere(pi *PkgInfo, sf *SpecFun) bool {
 }
 
 var _ = ast.NewIdent
+
+// replaceSym replaces whole-token occurrences of sym in s.
+func replaceSym(s, sym, by string) string {
+	if sym == "" || !strings.Contains(s, sym) {
+		return s
+	}
+	var b strings.Builder
+	for i := 0; i < len(s); {
+		j := strings.Index(s[i:], sym)
+		if j < 0 {
+			b.WriteString(s[i:])
+			break
+		}
+		j += i
+		end := j + len(sym)
+		okL := j == 0 || s[j-1] == ' ' || s[j-1] == '('
+		okR := end == len(s) || s[end] == ' ' || s[end] == ')'
+		b.WriteString(s[i:j])
+		if okL && okR {
+			b.WriteString(by)
+		} else {
+			b.WriteString(sym)
+		}
+		i = end
+	}
+	return b.String()
+}
